@@ -33,7 +33,7 @@ type mxCase struct {
 	Launch    int  `json:"launch"`  // 0 Cmd 1 RunnerFunc 2 reattach
 	Wire      int  `json:"wire"`    // 0 net/rpc 1 gRPC
 	PTLS      int  `json:"ptls"`    // 0 none 1 TLSProvider
-	MuxLine   int  `json:"muxline"` // 0 new 1 old (never prints the field) 2 prints false 3 legacy four-field line (scripted)
+	MuxLine   int  `json:"muxline"` // 0 new 1 old (never prints the field) 2 prints false 3 legacy four-field line (scripted) 4 five-field line without certificate and multiplexing fields (scripted: a plugin not built on this library)
 }
 
 func init() { families["matrix"] = runMatrix }
@@ -67,7 +67,7 @@ func genMatrix(o opts) []mxCase {
 				for la := 0; la < 3; la++ {
 					for wi := 0; wi < 2; wi++ {
 						for pt := 0; pt < 3; pt++ {
-							for ml := 0; ml < 4; ml++ {
+							for ml := 0; ml < 5; ml++ {
 								c := mxCase{AllowNet: al[0], AllowGrpc: al[1], AllowNil: al[2], HTLS: ht, Mux: mux, Launch: la, Wire: wi, PTLS: pt, MuxLine: ml}
 								if ml == 2 {
 									// a plugin printing "false" is a scripted stdout: only cells the start itself decides
@@ -79,6 +79,13 @@ func genMatrix(o opts) []mxCase {
 								if ml == 3 {
 									// a legacy four-field line (scripted): the protocol defaults to net/rpc; only cells where that is refused
 									if la == 2 || c.AllowNet || wi == 1 || pt != 0 {
+										continue
+									}
+								}
+								if ml == 4 {
+									// a five-field line (scripted): only cells the start itself decides
+									allowed := (wi == 0 && c.AllowNet) || (wi == 1 && c.AllowGrpc)
+									if la == 2 || pt != 0 || (allowed && !(mux && wi == 1)) {
 										continue
 									}
 								}
@@ -104,7 +111,18 @@ func genMatrix(o opts) []mxCase {
 	if n > len(all) {
 		n = len(all)
 	}
-	return all[:n]
+	// the sample always contains cells in which a scripted line leaves the multiplexing request unanswered
+	picked := all[:n]
+	for ml := 2; ml <= 4; ml += 2 {
+		k := 0
+		for _, c := range all[n:] {
+			if c.MuxLine == ml && c.Mux && c.Wire == 1 && c.AllowGrpc && k < 3 {
+				picked = append(picked, c)
+				k++
+			}
+		}
+	}
+	return picked
 }
 
 func runOneMatrix(c mxCase, base string, idx int) (sx.V, sx.V) {
@@ -157,6 +175,10 @@ func runOneMatrix(c mxCase, base string, idx int) (sx.V, sx.V) {
 		if c.MuxLine == 3 {
 			cfg.Cmd = exec.Command("/bin/sh", "-c", `echo "$LINE"; exec sleep 30`)
 			cfg.Cmd.Env = []string{"LINE=" + fmt.Sprintf("1|1|unix|%s", filepath.Join(pdir, "nothing"))}
+		}
+		if c.MuxLine == 4 {
+			cfg.Cmd = exec.Command("/bin/sh", "-c", `echo "$LINE"; exec sleep 30`)
+			cfg.Cmd.Env = []string{"LINE=" + fmt.Sprintf("1|1|unix|%s|%s", filepath.Join(pdir, "nothing"), proto)}
 		}
 		if c.MuxLine == 2 {
 			line := fmt.Sprintf("1|1|unix|%s|%s||false", filepath.Join(pdir, "nothing"), proto)
